@@ -352,23 +352,24 @@ def corr_css_concrete(check, ctx, c, rng):
             try:
                 for p in parts:
                     outs.append(d.decode(p, False))
-                fin = d.decode(b'', True)
+                outs.append(d.decode(b'', True))
             except UnicodeError:
                 raised = True
             region = outside_agree(name, data)
             ctx.case(key=('cdec', tuple(parts), given, force), nontrivial=len(parts) > 1,
                      kind='css-cdec:' + norm_name(name) + (':raises' if one is None else ''),
                      sample={'chunks': [p.hex() for p in parts], 'encoding': given, 'force': force, 'one_shot': one})
-            got_total = None if raised else ''.join(outs) + fin
+            got_total = None if raised else ''.join(outs)
             if got_total != one:
                 ctx.violate('incremental decoder = one-shot for every chunking (errors included)', w,
                             {'incremental': 'raises' if raised else got_total,
                              'one_shot': 'raises' if one is None else one, 'encoding_used': name},
                             known=FINDING if region else None)
                 continue
-            if raised or region:
-                continue            # the model has no exception value at this level (see inner_decoder_chunking)
-            got = '%s | %s | %s' % (' '.join(enc(o) for o in outs), enc(fin), enc(one))
+            if region:
+                continue            # the model's one-shot is the incremental decoder at end of data (see Agree)
+            got = '%s | %s | %s' % (' '.join([enc(o) for o in outs] + (['RAISE'] if raised else [])),
+                                    'RAISE' if raised else enc(got_total), 'RAISE' if one is None else enc(one))
             if m is not None and norm(m) != norm(got):
                 ctx.disagree('IncrementalDecoder over CPython inner codecs', w, got, m)
         else:
